@@ -81,7 +81,7 @@ def hexDigit (n : Nat) : Char :=
 
 def hexOf (b : Bytes) : Str := b.flatMap fun x => [hexDigit (x.toNat / 16), hexDigit (x.toNat % 16)]
 
-def utf8Encode (s : Str) : Bytes := (String.ofList s).toUTF8.toList
+def utf8Encode (s : Str) : Bytes := (String.ofList s).toUTF8.data.toList
 
 /-- `md5_hex(s)` of auth_digest -/
 def md5Hex (s : Str) : Str := hexOf (md5 (utf8Encode s))
